@@ -52,6 +52,26 @@ def raw_op(t, op):
     if k == 'sort': return t.sort()
     if k == 'add': return t + a[0]
     if k == 'mul': return t * a[0]
+    if k == 'imul':
+        t0 = t
+        t *= a[0]
+        return None if t is t0 else ('rebound to', type(t).__name__)      # `x *= k` must leave the name bound to the same object
+    if k == 'iadd':
+        t0 = t
+        t += a[0]
+        return None if t is t0 else ('rebound to', type(t).__name__)
+    if k == 'iter': return [x for x in t]
+    if k == 'diter': return [x for x in t]
+    if k == 'dkeys': return list(t.keys())
+    if k == 'dvalues': return list(t.values())
+    if k == 'ditems': return dict(t.items())
+    if k == 'nset':
+        setattr(t, f'a{a[0]}', a[1])
+        return None
+    if k == 'nget': return getattr(t, f'a{a[0]}')
+    if k == 'ndel':
+        delattr(t, f'a{a[0]}')
+        return None
     if k == 'dpop': return t.pop(a[0])
     if k == 'dpopd': return t.pop(a[0], a[1])
     if k == 'dgetd': return t.get(a[0], a[1])
